@@ -71,11 +71,12 @@ func c14r1(p *Program, r *Report) {
 // prepGoroutine is the goroutine that performs the shared PREPARE: a function literal started by `go func(){}()`
 // or a method started by `go c.method(args)`.
 type prepGoroutine struct {
-	node   ast.Node       // the literal or the method declaration
-	body   *ast.BlockStmt // its body
-	g      *Graph
-	key    types.Object // the cache key inside the goroutine (captured variable or parameter)
-	method *FuncInfo    // nil for a literal
+	node     ast.Node       // the literal or the method declaration
+	body     *ast.BlockStmt // its body
+	g        *Graph
+	key      types.Object // the cache key inside the goroutine (captured variable or parameter)
+	keyField types.Object // or the field of the job object it is carried in
+	method   *FuncInfo    // nil for a literal
 }
 
 func prepareParts(p *Program, r *Report) (fi *FuncInfo, keyObj types.Object, cb *ast.FuncLit, gor *prepGoroutine) {
@@ -122,6 +123,26 @@ func prepareParts(p *Program, r *Report) (fi *FuncInfo, keyObj types.Object, cb 
 				}
 				if keyParam != nil && neverAssigned(m.Pkg.TypesInfo, m.Decl.Body, keyParam) {
 					gor = &prepGoroutine{node: m.Decl, body: m.Decl.Body, g: p.GraphOf(m), key: keyParam, method: m}
+				} else if sel, isSel := ast.Unparen(goStmt.Call.Fun).(*ast.SelectorExpr); isSel && keyParam == nil {
+					// the key travels in a field of the job object the method is started on
+					if rid, isId := ast.Unparen(sel.X).(*ast.Ident); isId {
+						if d := localDef(info, fi, rid); d != nil {
+							if u, isU := ast.Unparen(d).(*ast.UnaryExpr); isU {
+								d = u.X
+							}
+							if cl, isCl := ast.Unparen(d).(*ast.CompositeLit); isCl {
+								for _, el := range cl.Elts {
+									if kv, isKV := el.(*ast.KeyValueExpr); isKV && isIdentOf(info, kv.Value, keyObj) {
+										if k, isK := kv.Key.(*ast.Ident); isK {
+											if f := info.Uses[k]; f != nil && neverStoredField(p, f) {
+												gor = &prepGoroutine{node: m.Decl, body: m.Decl.Body, g: p.GraphOf(m), keyField: f, method: m}
+											}
+										}
+									}
+								}
+							}
+						}
+					}
 				}
 			}
 		}
@@ -167,7 +188,13 @@ func c14r3(p *Program, r *Report) {
 		return
 	}
 	info := fi.Pkg.TypesInfo
-	keyObj := gor.key
+	isKey := func(e ast.Expr) bool {
+		if gor.key != nil && isIdentOf(info, e, gor.key) {
+			return true
+		}
+		sel, isSel := ast.Unparen(e).(*ast.SelectorExpr)
+		return isSel && gor.keyField != nil && info.Uses[sel.Sel] == gor.keyField
+	}
 	// first statement: defer close(flight.done)
 	okDefer := false
 	if len(gor.body.List) > 0 {
@@ -190,7 +217,7 @@ func c14r3(p *Program, r *Report) {
 					}
 				}
 				for _, c := range callsIn(step.Node) {
-					if isCallTo(info, c, "(*preparedLRU).remove") && len(c.Args) == 1 && isIdentOf(info, c.Args[0], keyObj) {
+					if isCallTo(info, c, "(*preparedLRU).remove") && len(c.Args) == 1 && isKey(c.Args[0]) {
 						s.pending = false
 					}
 				}
